@@ -157,6 +157,82 @@ static std::string checkBody(const std::string &body, int maxIndex, const std::v
     return "";
 }
 
+// two expression parameters of one command, read in an arbitrary interleaving: every query must answer for its own list
+// exactly as it does when that list is the only parameter (the entry functions take the parameter as an argument; what
+// they may remember between calls must not leak from one list into the other).  order: pairs (which list, index).
+static std::string checkTwoLists(const std::string &bodyA, const std::string &bodyB, const std::vector<std::pair<int, int>> &order, bool numeric, uint64_t *calls = nullptr) {
+    Lib L;
+    std::string text = "(" + bodyA + "),(" + bodyB + ")";
+    XBuf tb(text.size()); memcpy(tb.p, text.data(), text.size());
+    L.ctx.param_list.lex_state.buffer = L.ctx.param_list.lex_state.pos = tb.p;
+    L.ctx.param_list.lex_state.len = (int) text.size();
+    L.ctx.input_count = 0;
+    scpi_parameter_t par[2];
+    for (int k = 0; k < 2; k++) if (!SCPI_Parameter(&L.ctx, &par[k], TRUE) || par[k].type != SCPI_TOKEN_PROGRAM_EXPRESSION) return "'" + vis(text) + "' was not delivered as two expression parameters";
+    const std::string *bodies[2] = {&bodyA, &bodyB};
+    std::string trail;
+    for (auto &q : order) {
+        int which = q.first & 1, i = q.second;
+        trail += fmt("%c[%d] ", which ? 'b' : 'a', i);
+        std::string w = " after the reads " + trail + "on '" + vis(text) + "'";
+        L.errs.clear(); SCPI_ErrorClear(&L.ctx); L.errs.clear();
+        if (calls) (*calls)++;
+        if (numeric) {
+            NumEntry ne; RStat rs = refNumeric(*bodies[which], i, ne);
+            scpi_bool_t rng = 2; scpi_parameter_t a, b;
+            scpi_expr_result_t r = SCPI_ExprNumericListEntry(&L.ctx, &par[which], i, &rng, &a, &b);
+            if ((r == SCPI_EXPR_OK) != (rs == ST_OK)) return fmt("numeric entry reports %d, alone it is %d (0=OK 1=ERROR 2=NO_MORE)", (int) r, (int) rs) + w;
+            if (r == SCPI_EXPR_OK && ((rng != 0) != ne.range || std::string(a.ptr, (size_t) a.len) != ne.from || (ne.range && std::string(b.ptr, (size_t) b.len) != ne.to))) return "numeric entry differs from what is written in its own list" + w;
+        } else {
+            ChanEntry ce; RStat rs = refChannel(*bodies[which], i, ce);
+            XBuf fb(16, 0x5a), tb2(16, 0x5a);
+            scpi_bool_t rng = 2; size_t dims = 777;
+            scpi_expr_result_t r = SCPI_ExprChannelListEntry(&L.ctx, &par[which], i, &rng, (int32_t *) fb.p, (int32_t *) tb2.p, 4, &dims);
+            if ((int) r != (int) rs) return fmt("channel entry reports %d, alone it is %d (0=OK 1=ERROR 2=NO_MORE)", (int) r, (int) rs) + w;
+            if (r == SCPI_EXPR_OK) {
+                if ((rng != 0) != ce.range || dims != ce.from.size()) return "isRange / dimension count differ from what is written in its own list" + w;
+                for (size_t d = 0; d < std::min(dims, (size_t) 4); d++) {
+                    if (isIntLit(ce.from[d]) && ((int32_t *) fb.p)[d] != atoi(ce.from[d].c_str())) return fmt("dimension %zu is %d, written '%s'", d, ((int32_t *) fb.p)[d], ce.from[d].c_str()) + w;
+                    if (ce.range && isIntLit(ce.to[d]) && ((int32_t *) tb2.p)[d] != atoi(ce.to[d].c_str())) return fmt("range end dimension %zu is %d, written '%s'", d, ((int32_t *) tb2.p)[d], ce.to[d].c_str()) + w;
+                }
+                if (!L.errs.empty()) return "error queued with OK" + w;
+            } else if (r == SCPI_EXPR_ERROR) { if (!(L.errs.size() == 1 && L.errs[0] == -170)) return "ERROR without exactly one -170" + w; }
+            else if (!L.errs.empty()) return "NO_MORE came with a queued error" + w;
+        }
+    }
+    return "";
+}
+static std::vector<std::pair<int, int>> orderOf(int shape, int maxIndex) {
+    std::vector<std::pair<int, int>> o;
+    for (int i = 0; i <= maxIndex; i++) switch (shape) {
+        case 0: o.push_back({0, i}); o.push_back({1, i}); break;                       // a0 b0 a1 b1 ...
+        case 1: o.push_back({1, i}); o.push_back({0, i}); break;                       // b0 a0 b1 a1 ...
+        case 2: o.push_back({0, i}); o.push_back({1, maxIndex - i}); break;            // a ascending, b descending
+        default: o.push_back({0, i}); o.push_back({0, i}); o.push_back({1, i ? i - 1 : 0}); break;
+    }
+    return o;
+}
+static std::string replayTwo(const Replay &r) { return checkTwoLists(hexDec(r.get("a")), hexDec(r.get("b")), orderOf((int) r.num("shape"), (int) r.num("max", 4)), r.num("numeric") != 0); }
+static void runTwo(const Opt &o, Ev &ev) {
+    static const char *const chan[] = {"@1,2,3", "@11,12,13", "@4,5:8,9", "@20", "@1!2,3!4:5!6", "@1:2,3", "@7!8!9", "@1,", "@"};
+    static const char *const num[] = {"1,2,3", "11,12:13", "4", "5:8,9", "1.5,2e3:4", "1,,2", ""};
+    uint64_t idx = 0, calls = 0;
+    for (int numeric = 0; numeric < 2; numeric++) {
+        const char *const *pool = numeric ? num : chan; size_t n = numeric ? sizeof num / sizeof num[0] : sizeof chan / sizeof chan[0];
+        for (size_t a = 0; a < n; a++) for (size_t b = 0; b < n; b++) for (int shape = 0; shape < 4; shape++) {
+            if ((idx++ % (uint64_t) o.workers) != (uint64_t) o.worker) continue;
+            armCase(fmt("sub=two\na=%s\nb=%s\nshape=%d\nmax=4\nnumeric=%d\n", hexEnc(pool[a]).c_str(), hexEnc(pool[b]).c_str(), shape, numeric));
+            std::string m = checkTwoLists(pool[a], pool[b], orderOf(shape, 4), numeric != 0, &calls);
+            ev.ntCount();
+            if (a == 0 && shape == 0 && ev.wantSample()) ev.sample(fmt("two lists read alternately: (%s),(%s)", pool[a], pool[b]));
+            if (!m.empty()) { failEnum(o, ev, "two", fmt("a=%s\nb=%s\nshape=%d\nmax=4\nnumeric=%d\n", hexEnc(pool[a]).c_str(), hexEnc(pool[b]).c_str(), shape, numeric), m); if (ev.failures.size() >= 4) return; }
+        }
+    }
+    disarmCase();
+    ev.eval(calls); ev.label("two-list-entry-queries", calls);
+    ev.exhaustive["all ordered pairs of 9 channel-list and of 7 numeric-list bodies as two parameters of one command, entries 0..4 read in four interleavings"] = true;
+}
+
 static std::string g_curBody;
 static std::string lazyCur(const void *) { return "sub=body\nbody=" + hexEnc(g_curBody) + "\n"; }
 
@@ -199,11 +275,31 @@ static std::string genNumber(Src &s, bool intOnly) {
     }
     return t;
 }
+static std::string genBody(Src &s, bool chan, int &n, int &dimsMax, bool &anyRange, bool &mutated);
 static std::string body(Src &s, Ev &ev) {
     bool chan = s.coin();
-    int n = (int) s.range(1, 8);
+    int n = 0, dimsMax = 0; bool anyRange = false, mutated = false;
+    std::string b = genBody(s, chan, n, dimsMax, anyRange, mutated);
+    bool nt = false; uint64_t calls = 0;
+    std::string m = checkBody(b, 9, {0, 1, 2, 3, 4, 5}, &nt, &calls);
+    if (m.empty() && s.prob(1, 4)) {
+        // the same list next to a second one, entries of both read in a generated order
+        int n2 = 0, d2 = 0; bool r2 = false, m2 = false;
+        std::string b2 = genBody(s, chan, n2, d2, r2, m2);
+        std::vector<std::pair<int, int>> order; int q = (int) s.range(2, 14);
+        for (int i = 0; i < q; i++) order.push_back({(int) s.range(0, 1), (int) s.range(0, 9)});
+        m = checkTwoLists(b, b2, order, !chan, &calls);
+        ev.label("two-lists-interleaved");
+    }
+    ev.eval(calls);
+    ev.label(chan ? (mutated ? "mutated-channel-list" : "channel-list") : (mutated ? "mutated-numeric-list" : "numeric-list"));
+    if (n >= 2 && (anyRange || dimsMax >= 2)) { ev.nt(hashStr(b)); if (ev.wantSample()) ev.sample("(" + b + ")"); }
+    return m;
+}
+static std::string genBody(Src &s, bool chan, int &n, int &dimsMax, bool &anyRange, bool &mutated) {
+    n = (int) s.range(1, 8);
     std::string b = chan ? "@" : "";
-    int dimsMax = 0; bool anyRange = false;
+    dimsMax = 0; anyRange = false;
     for (int i = 0; i < n; i++) {
         if (i) b += ',';
         if (chan) {
@@ -215,7 +311,7 @@ static std::string body(Src &s, Ev &ev) {
             if (s.prob(1, 3)) { anyRange = true; b += ':'; b += genNumber(s, false); }
         }
     }
-    bool mutated = s.prob(1, 3);
+    mutated = s.prob(1, 3);
     if (mutated && !b.empty()) {
         size_t pos = s.range(0, b.size() - 1);
         switch (s.range(0, 3)) {
@@ -225,18 +321,14 @@ static std::string body(Src &s, Ev &ev) {
             default: b.resize(pos); break;
         }
     }
-    bool nt = false; uint64_t calls = 0;
-    std::string m = checkBody(b, 9, {0, 1, 2, 3, 4, 5}, &nt, &calls);
-    ev.eval(calls);
-    ev.label(chan ? (mutated ? "mutated-channel-list" : "channel-list") : (mutated ? "mutated-numeric-list" : "numeric-list"));
-    if (n >= 2 && (anyRange || dimsMax >= 2)) { ev.nt(hashStr(b)); if (ev.wantSample()) ev.sample("(" + b + ")"); }
-    return m;
+    return b;
 }
 
 int main(int argc, char **argv) {
     std::vector<Sub> subs;
     subs.push_back({"body", [](const Opt &, Ev &) {}, [](const Replay &r) { return checkBody(hexDec(r.get("body")), 9, {0, 1, 2, 3, 4, 5}); }});
     subs.push_back({"enum", runEnum, [](const Replay &r) { return checkBody(hexDec(r.get("body")), 9, {0, 1, 2, 3, 4, 5}); }});
+    subs.push_back({"two", runTwo, replayTwo});
     subs.push_back({"rand", [](const Opt &o, Ev &ev) { runRandom(o, ev, "rand", 400, o.quick() ? 30000 : 300000, body); },
                     [](const Replay &r) { auto v = r.choices(); Src s(v); Ev e; return body(s, e); }});
     return mainWith(argc, argv, "C19", subs);
